@@ -59,6 +59,17 @@ def scenarios(tier):
         for r in [('getd', 'k1'), ('items',), ('keys',), ('len',), ('load',)]:
             sc.append(dict(name='del k1 || %s' % (r,), backend=b, prior=P1 + [('set', 'k2', 'old2')], actors=[W(('del', 'k1')), R(r)]))
         sc.append(dict(name='set k3 || open cached', backend=b, prior=P1, actors=[W(('set', 'k3', 'new3')), O(True)]))
+        sc.append(dict(name='empty store: set k3 || open cached', backend=b, prior=[], actors=[W(('set', 'k3', 'new3')), O(True)]))
+        sc.append(dict(name='empty store: set k2 || set k3', backend=b, prior=[], actors=[W(('set', 'k2', 'new2')), W(('set', 'k3', 'new3'))]))
+        # writers on distinct keys: multi-key writers, a deleter next to a writer, cache-level dump next to a bulk load
+        P2 = P1 + [('set', 'k2', 'old2')]
+        sc.append(dict(name='update k2,k3 || update k4,k5', backend=b, prior=P1,
+                       actors=[W(('update', (('k2', 'new2'), ('k3', 'new3')))), W(('update', (('k4', 'new4'), ('k5', 'new5'))))]))
+        sc.append(dict(name='del k1 || set k3', backend=b, prior=P2, actors=[W(('del', 'k1')), W(('set', 'k3', 'new3'))]))
+        sc.append(dict(name='pop k2 || overwrite k1', backend=b, prior=P2, actors=[W(('pop', 'k2')), W(('set', 'k1', 'new1'))]))
+        sc.append(dict(name='dump k3,k4 || load', backend=b, prior=P1, actors=[W(('dump', (('k3', 'new3'), ('k4', 'new4')))), R(('load',))]))
+        sc.append(dict(name='set k2 || set k3 || keys', backend=b, prior=P1,
+                       actors=[W(('set', 'k2', 'new2')), W(('set', 'k3', 'new3')), R(('keys',))], bound=1 if tier == 'quick' else 2))
         if tier == 'thorough':
             sc.append(dict(name='set k2 || set k3 || items', backend=b, prior=P1,
                            actors=[W(('set', 'k2', 'new2')), W(('set', 'k3', 'new3')), R(('items',))], bound=2))
@@ -70,6 +81,9 @@ def scenarios(tier):
         sc.append(dict(name='overwrite k1 || get k1', backend=b, prior=P1, actors=[W(('set', 'k1', 'new1')), R(('get', 'k1'))]))
         sc.append(dict(name='set k3 || open cached', backend=b, prior=P1, actors=[W(('set', 'k3', 'new3')), O(True)]))
         sc.append(dict(name='set k3 || open direct', backend=b, prior=P1, actors=[W(('set', 'k3', 'new3')), O(False)]))
+        # the archive exists but is still empty (state right after creation)
+        sc.append(dict(name='empty store: set k3 || open cached', backend=b, prior=[], actors=[W(('set', 'k3', 'new3')), O(True)]))
+        sc.append(dict(name='empty store: set k3 || items', backend=b, prior=[], actors=[W(('set', 'k3', 'new3')), R(('items',))]))
         if tier == 'thorough':
             sc.append(dict(name='pop k1 || items', backend=b, prior=P1 + [('set', 'k2', 'old2')], actors=[W(('pop', 'k1')), R(('items',))]))
     b = 'sql'
@@ -77,8 +91,12 @@ def scenarios(tier):
     for r in [('getd', 'k3'), ('items',), ('len',)] + ([('keys',), ('load',), ('contains', 'k3')] if tier == 'thorough' else []):
         sc.append(dict(name='set k3 || %s' % (r,), backend=b, prior=P1, actors=[W(('set', 'k3', 'new3')), R(r)]))
     sc.append(dict(name='pop k1 || items', backend=b, prior=P1 + [('set', 'k2', 'old2')], actors=[W(('pop', 'k1')), R(('items',))]))
+    sc.append(dict(name='del k1 || set k3', backend=b, prior=P1 + [('set', 'k2', 'old2')], actors=[W(('del', 'k1')), W(('set', 'k3', 'new3'))]))
+    sc.append(dict(name='update || items', backend=b, prior=P1, actors=[W(('update', (('k1', 'new1'), ('k3', 'new3')))), R(('items',))]))
+    sc.append(dict(name='empty store: set k3 || open cached', backend=b, prior=[], actors=[W(('set', 'k3', 'new3')), O(True)]))
     if tier == 'thorough':
-        sc.append(dict(name='update || items', backend=b, prior=P1, actors=[W(('update', (('k1', 'new1'), ('k3', 'new3')))), R(('items',))]))
+        sc.append(dict(name='update k2,k3 || update k4,k5', backend=b, prior=P1,
+                       actors=[W(('update', (('k2', 'new2'), ('k3', 'new3')))), W(('update', (('k4', 'new4'), ('k5', 'new5'))))]))
         sc.append(dict(name='set k3 || open cached', backend=b, prior=P1, actors=[W(('set', 'k3', 'new3')), O(True)]))
     return sc
 
@@ -91,7 +109,7 @@ def apply_model(state, op):
     k = op[0]
     if k == 'set':
         s[op[1]] = op[2]
-    elif k == 'update':
+    elif k in ('update', 'dump'):
         s.update(dict(op[1]))
     elif k in ('del', 'pop'):
         s.pop(op[1], None)
@@ -218,6 +236,25 @@ def check(sc, res):
 # exploration
 
 def explore(task):
+    """iterative preemption bounding; a scenario that turns out to be short (<= FULL_POINTS gated calls in total) is
+    then explored again without a bound, i.e. with every interleaving"""
+    res = explore_bounded(task)
+    tier, sc, bound, maxexec = task
+    if res.get('maxpoints', 99) <= FULL_POINTS[tier] and not res['caps']:
+        full = explore_bounded((tier, sc, 999, maxexec))
+        full['counts']['fully_interleaved_scenarios'] = 1
+        for k, n in res['counts'].items():          # keep the bounded pass in the totals
+            if k in ('transitions', 'evaluations', 'schedules'):
+                full['counts'][k] = full['counts'].get(k, 0) + n
+        full['violations'] = res['violations'] + [x for x in full['violations'] if x['sig'] not in [y['sig'] for y in res['violations']]]
+        return full
+    return res
+
+
+FULL_POINTS = {'quick': 14, 'thorough': 18}
+
+
+def explore_bounded(task):
     tier, sc, bound, maxexec = task
     name = '%s: %s' % (sc['backend'], sc['name'])
     res = {'counts': collections.Counter(), 'violations': [], 'samples': [], 'nontrivial': 0, 'outcomes': set(),
@@ -278,11 +315,11 @@ def explore(task):
     res['counts']['states'] = len(seen_traces)
     res['counts']['schedules'] = nexec
     res['nontrivial'] = len(seen_traces)
-    res['counts']['max_scheduling_points'] = 0
     res['maxpoints'] = maxpoints
     res['counts'] = dict(res['counts'])
     res['outcomes'] = sorted(res['outcomes'])
-    res['config_summary'] = '%s [preemption bound %d, %d schedules, <= %d points, %d outcomes]' % (name, bound, nexec, maxpoints, len(res['outcomes']))
+    res['config_summary'] = '%s [%s, %d schedules, <= %d points, %d outcomes]' % (
+        name, 'all interleavings' if bound >= 999 else 'preemption bound %d' % bound, nexec, maxpoints, len(res['outcomes']))
     return res
 
 
@@ -307,9 +344,10 @@ def run(tier, seed):
         bound = sc.get('bound', 2 if tier == 'quick' else 3)
         if sc['backend'] == 'sql':
             bound = min(bound, 1 if tier == 'quick' else 2)
-        tasks.append((tier, sc, bound, 600 if tier == 'quick' else 6000))
+        tasks.append((tier, sc, bound, 2500 if tier == 'quick' else 12000))
     for res in pool.run_configs(explore, tasks, seed=seed):
         rep.merge(res)
+        rep.extra['max_scheduling_points'] = max(rep.extra.get('max_scheduling_points', 0), res.get('maxpoints', 0))
     rep.extra['traces_validated_against_impl'] = rep.counts.get('schedules', 0)
     return rep.finish()
 
